@@ -221,6 +221,7 @@ struct ReplayStats {
 };
 
 struct ReplayCtx {
+  std::FILE* trace = nullptr;      // VF_TRACE_OUT: every path step is also written as a trace event (act + observation)
   std::vector<bj::value> states;   // index -> canonical expected obs
   std::vector<bj::value> groups;
   std::FILE* out;
@@ -288,7 +289,8 @@ void replay_config(ReplayCtx& ctx) {
   if (e && std::string(e) == "0") { replay_config_inproc<Model>(ctx); return; }
   std::fflush(ctx.out);
   pid_t pid = fork();
-  if (pid == 0) { replay_config_inproc<Model>(ctx); std::fflush(ctx.out); _exit(0); }
+  if (ctx.trace) std::fflush(ctx.trace);
+  if (pid == 0) { replay_config_inproc<Model>(ctx); std::fflush(ctx.out); if (ctx.trace) std::fflush(ctx.trace); _exit(0); }
   int status = 0;
   waitpid(pid, &status, 0);
   if (WIFSIGNALED(status) || (WIFEXITED(status) && WEXITSTATUS(status) != 0 && WEXITSTATUS(status) != 3 && WEXITSTATUS(status) != 1)) {
@@ -317,7 +319,8 @@ void replay_config_inproc(ReplayCtx& ctx) {
       Model probe;
       for (auto& sv : path) {
         const bj::object& s = sv.as_object();
-        if (!probe.applicable(s.at("act").as_object()) || !probe.state_ok(ctx.states[s.at("to").as_int64()].as_object())) { ok = false; break; }
+        if (!probe.applicable(s.at("act").as_object())) { ok = false; break; }
+        if (s.at("to").as_int64() >= 0 && !probe.state_ok(ctx.states[s.at("to").as_int64()].as_object())) { ok = false; break; }
       }
     }
     if (!ok) { st.skipped += edges.size(); continue; }
@@ -327,6 +330,7 @@ void replay_config_inproc(ReplayCtx& ctx) {
       Model m;
       int step = 0;
       st.hist.clear();
+      if (ctx.trace) std::fprintf(ctx.trace, "{\"op\":\"reset\",\"cfg\":%s}\n", bj::serialize(bj::value(st.cfg)).c_str());
       for (auto& sv : path) {
         const bj::object& s = sv.as_object();
         crash_ctx().where = st.cfg + " g=" + std::to_string(gi) + " path u=" + std::to_string(u) + " step=" + std::to_string(step);
@@ -335,6 +339,19 @@ void replay_config_inproc(ReplayCtx& ctx) {
         try { got = m.apply(s.at("act").as_object()); } catch (const std::exception& e) { got["exception"] = e.what(); }
         if (got.contains("inapplicable")) { path_ok = false; break; }  // the configuration cannot go on (not a deviation)
         st.steps++;
+        if (s.at("to").as_int64() < 0) {
+          // free-running behaviour (no expected state from a bounded model): only recorded, validated by a Trace_* spec
+          if (ctx.trace) {
+            bj::object ev = s.at("act").as_object();
+            for (auto& pr : got) ev[std::string("got_") + std::string(pr.key())] = pr.value();
+            ev["obs"] = m.observe();
+            if (!san_report().empty()) { ev["sanitizer"] = san_report().substr(0, 300); san_report().clear(); }
+            std::fprintf(ctx.trace, "%s\n", bj::serialize(canon(bj::value(ev))).c_str());
+          }
+          st.hist.emplace_back(s.at("act").as_object().at("op").as_string());
+          ++step;
+          continue;
+        }
         if (!check_step(m, s.at("act").as_object(), got, ctx.states[s.at("to").as_int64()], ctx, st, u, -1, step, "path")) { path_ok = false; break; }
         st.hist.emplace_back(s.at("act").as_object().at("op").as_string());
         ++step;
@@ -381,6 +398,10 @@ inline ReplayCtx replay_setup(int argc, char** argv) {
   ctx.groups = read_ndjson(argv[2]);
   ctx.out = std::fopen(argv[3], "w");
   if (argc >= 6) { ctx.shard = std::atoi(argv[4]); ctx.nshards = std::atoi(argv[5]); }
+  if (const char* t = std::getenv("VF_TRACE_OUT")) {
+    std::string tp = std::string(t) + "." + std::to_string(ctx.shard);
+    ctx.trace = std::fopen(tp.c_str(), "w");
+  }
   crash_ctx().out = ctx.out;
   install_crash_handlers();
 #ifdef VF_HAS_ASAN
